@@ -131,7 +131,7 @@ pub fn eval_from_bytes_bitcoin(bytes: &[u8], version_id: u8) -> EvaluatedScript 
     // For OP_RETURN and provably unspendable scripts there is no point in parsing the address
     if script.is_op_return() {
         // OP_RETURN 13 <data>
-        let data = String::from_utf8(script.to_bytes().into_iter().skip(2).collect());
+        let data = String::from_utf8(op_return_payload(script));
         let pattern = ScriptPattern::OpReturn(data.unwrap_or_else(|_| String::from("")));
         return EvaluatedScript::new(None, pattern);
     } else if is_provable_unspendable(script) {
@@ -169,6 +169,17 @@ pub fn eval_from_bytes_bitcoin(bytes: &[u8], version_id: u8) -> EvaluatedScript 
         EvaluatedScript::new(address, ScriptPattern::Pay2MultiSig)
     } else {
         EvaluatedScript::new(address, ScriptPattern::NotRecognised)
+    }
+}
+
+/// Returns the data carried by an OP_RETURN script.
+/// If the script is OP_RETURN followed by exactly one data push (direct or OP_PUSHDATA1/2/4)
+/// this is the pushed data itself, for any other shape it is everything after the first two bytes.
+fn op_return_payload(script: &Script) -> Vec<u8> {
+    let mut instructions = script.instructions().skip(1);
+    match (instructions.next(), instructions.next()) {
+        (Some(Ok(Instruction::PushBytes(data))), None) => data.as_bytes().to_vec(),
+        _ => script.to_bytes().into_iter().skip(2).collect(),
     }
 }
 
